@@ -185,6 +185,24 @@ def optionReads : List String := [
   "pkg/generator schemaGenerator.generateUnmarshaler: if g.config.OnlyModels"
 ]
 
+def packageVars : List String := [
+  ".: var capitalizations []string",
+  ".: var defaultOutput string",
+  ".: var defaultPackage string",
+  ".: var extraImports bool",
+  ".: var minSizedInts bool",
+  ".: var onlyModels bool",
+  ".: var resolveExtensions []string",
+  ".: var rootCmd = &cobra.Command",
+  ".: var schemaOutputs []string",
+  ".: var schemaPackages []string",
+  ".: var schemaRootTypes []string",
+  ".: var structNameFromTitle bool",
+  ".: var tags []string",
+  ".: var verbose bool",
+  ".: var yamlExtensions []string"
+]
+
 def receiverWrites : List String := [
   "jsonFormatter.generate: \"*j = %s(%s)\"",
   "jsonFormatter.generate: \"return nil\"",
